@@ -2,12 +2,13 @@
 from gen import common, framing, ux
 from gen.props.C01 import replay
 
-LEAN_MODULE = "XcmModel.Props.C17"
+LEAN_MODULE = ["XcmModel.Props.C17", "XcmModel.Props.Utls"]
 THEOREMS = [
     "XcmModel.C17.C17_monotone", "XcmModel.C17.rcnt_run", "XcmModel.C17.C17_counters_exact",
     "XcmModel.C17.C17_order", "XcmModel.C17.C17_refused_counts_nothing", "XcmModel.C17.C17_idle_agreement",
     "XcmModel.C17btcp.C17_btcp_counters_exact", "XcmModel.C17btcp.C17_btcp_refused_counts_nothing",
     "XcmModel.C17btls.C17_btls_counters_exact", "XcmModel.C17btls.C17_btls_monotone", "XcmModel.C17btls.C17_btls_refused_counts_nothing",
+    "XcmModel.UtlsProps.C01_utls_pure_delegation",
     "XcmModel.C17.C17_ux_monotone", "XcmModel.C17.C17_ux_refused_counts_nothing", "XcmModel.C17.C17_ux_truncated_counts_delivered", "XcmModel.C17.C17_ux_counters_exact",
 ]
 
@@ -54,6 +55,8 @@ def run(ctx):
     ctx.rule += ("; unit_btcp / unit_btls: the four byte counters of the real xcm_tp_btcp.c (short writes, refusals, errors) and "
                  "xcm_tp_btls.c (retained output: counted in from_app when accepted, in to_lower when SSL_write takes it) after every "
                  "call vs the Lean models + monitors (monotone, order, exact deltas)")
-    ctx.assumptions += ["utls delegates its counters to the sub-socket in use (exercised by sys_attr's attribute sweep, not modelled)"]
+    from gen import utls as _utls
+    _utls.run_part(ctx, 20 if quick else 800, label="c17utls")
+    ctx.rule += "; unit_utls: utls_get_cnt asks exactly the active sub-socket (C01_utls_pure_delegation)"
     ux.run_part(ctx, 40 if quick else 2000, "c17")
     ctx.rule += "; unit_ux: the eight counters of the real xcm_tp_ux.c after every scripted send/receive (truncating capacities included) vs the Lean Ux model + monitor"
